@@ -5,7 +5,7 @@
    XID_Start / XID_Continue are parameters of the section; `Exec.v`
    instantiates them on a listed set of characters.  No proofs here. *)
 From Coq Require Import List NArith ZArith Bool.
-From NV Require Import Syntax.Token.
+From NV Require Import Syntax.Token Gen.OpTable.
 Import ListNotations.
 Local Open Scope N_scope.
 
@@ -25,8 +25,7 @@ Definition is_numerical_fraction_char (c : N) := in_range 188 190 c || in_range 
 Definition is_currency_char (c : N) :=
   in_range 8352 8399 c || (c =? 163) || (c =? 165) || (c =? 36) || (c =? 3647).
 Definition is_other_allowed_identifier_char (c : N) := (c =? 37) || (c =? 8240).
-(* tokenizer.rs is_subscript_char: upper bound 0x209C (was 0x209CF before the fix: commit in numbat) *)
-Definition subscript_upper : N := 8348.
+(* tokenizer.rs is_subscript_char: the range is re-read from the source on every run (Gen/OpTable.v) *)
 Definition is_hex_digit (c : N) := is_ascii_digit c || in_range 97 102 c || in_range 65 70 c.
 Definition is_octal_digit (c : N) := in_range 48 55 c.
 Definition is_binary_digit (c : N) := (c =? 48) || (c =? 49).
@@ -130,7 +129,7 @@ Section Scan.
   Definition is_identifier_start (c : N) : bool :=
     xid_start c || is_numerical_fraction_char c || is_currency_char c
     || is_other_allowed_identifier_char c || (c =? 176) || (c =? 8242) || (c =? 8243) || (c =? 95).
-  Definition is_subscript_char (c : N) : bool := in_range 8320 subscript_upper c.
+  Definition is_subscript_char (c : N) : bool := in_range subscript_first subscript_last c.
   Definition is_identifier_continue (c : N) : bool :=
     (xid_continue c || is_subscript_char c || is_currency_char c || is_other_allowed_identifier_char c)
     && negb (is_exponent_char c) && negb (c =? 183) && negb (c =? 8901).
